@@ -28,6 +28,7 @@ type c12cfg struct {
 	Labels  map[string]string
 	Custom  uint8 `dialsflag:"my-custom"`
 	Ratio   float32
+	Z64     complex64
 	Seen    map[string]struct{} // nil in the template
 	Multi   map[string][]string // nil in the template
 }
@@ -56,8 +57,9 @@ func c12run(scalars, colls bool) {
 	numsMode := choose("nums", 3)   // absent, once, twice
 	labelsMode := choose("labels", 2)
 	ratioMode := choose("ratio", 3) // absent, in range, out of float32 range
-	seenMode, multiMode := 0, 0
+	seenMode, multiMode, z64Mode := 0, 0, 0
 	if !scalars {
+		z64Mode = choose("z64", 4) // absent, in range, real part / imaginary part out of float32 range
 		// (kept out of the full product of HarnessC12All, which is large enough already)
 		seenMode = choose("seen", 3)   // absent, once, three times
 		multiMode = choose("multi", 3) // absent, once, three times
@@ -102,6 +104,14 @@ func c12run(scalars, colls bool) {
 	}
 	if hCustom {
 		args = append(args, "-my-custom", zzverif.LiteralU(custom, zzverif.StyleDecimal))
+	}
+	switch z64Mode {
+	case 1:
+		args = append(args, "-z64", "1+2i")
+	case 2:
+		args = append(args, "-z64", "1e39+1i")
+	case 3:
+		args = append(args, "-z64", "1+1e39i")
 	}
 	if seenMode >= 1 {
 		args = append(args, "-seen", "a")
@@ -150,7 +160,7 @@ func c12run(scalars, colls bool) {
 	inRange := zzverif.And(
 		zzverif.And(zzverif.Implies(hPort, zzverif.And(port >= -128, port <= 127)), zzverif.Implies(hTTL, ttl <= 0xffff)),
 		zzverif.And(zzverif.Implies(hCustom, custom <= 0xff), zzverif.And(zzverif.Implies(numsMode >= 1, n0ok), zzverif.Implies(numsMode == 2, n1ok))))
-	inRange = zzverif.And(inRange, ratioMode != 2)
+	inRange = zzverif.And(inRange, ratioMode != 2 && z64Mode < 2)
 	if verr != nil {
 		zzverif.Assert(zzverif.Not(inRange), "C12 the flag source failed although every flag given holds a valid in-range value")
 		zzverif.Reached("c12-error")
@@ -210,6 +220,10 @@ func c12run(scalars, colls bool) {
 		zzverif.Assert(f("Labels").Len() == 2, "C12 -labels: repeated map flags must accumulate")
 	}
 	zzverif.Assert(f("Ratio").IsNil() == (ratioMode == 0), "C12 -ratio: leaf set/unset wrongly")
+	zzverif.Assert(f("Z64").IsNil() == (z64Mode == 0), "C12 -z64: leaf set/unset wrongly")
+	if z64Mode == 1 && !f("Z64").IsNil() {
+		zzverif.Assert(f("Z64").Elem().Complex() == complex(1, 2), "C12 -z64: wrong value")
+	}
 	zzverif.Assert(f("Seen").IsNil() == (seenMode == 0), "C12 -seen: set leaf set/unset wrongly")
 	if seenMode != 0 && !f("Seen").IsNil() {
 		want := []string{"a"}
